@@ -671,4 +671,5 @@ class Engine:
     def _where(self, node):
         fn = self.callstack[-1] if self.callstack else "?"
         n = self.loop_counter.setdefault(("ob", fn), itertools.count())
-        return "%s:%s#%d" % (fn, node.get("_line") if node else "?", next(n))
+        # no line number in the name: a harmless edit above must not rename obligations (the line is kept in `where`)
+        return "%s#%d" % (fn, next(n))
